@@ -176,7 +176,7 @@ Monad(v, a) ==
 
 -----------------------------------------------------------------------------
 (* dyads                                                                       *)
-Dyads == AtomicD \cup {"~", ",", "#", "_", "@", "?", ":+", ":#", ":_", ":^", ":="}
+Dyads == AtomicD \cup {"~", ",", "#", "_", "@", "?", ":+", ":#", ":_", ":^", ":=", ":-"}
 
 \* substring positions (0-based) of p in s, both sequences of code points
 SubPos(s, p) == {k \in 0..(Len(s) - Len(p)) : SubSeq(s, k + 1, k + Len(p)) = p}
@@ -217,6 +217,13 @@ FlatAtoms(b) == IsList(b) /\ Len(b.v) >= 1 /\ \A k \in 1..Len(b.v) : ~IsList(b.v
 RECURSIVE Amend(_, _, _)
 Amend(q, x, idx) == IF idx = <<>> THEN q ELSE Amend([q EXCEPT ![Head(idx) + 1] = x], x, Tail(idx))
 
+\* a:-v,path  (Amend-in-Depth): the element reached by the path of indices is replaced, everything else is unchanged
+RECURSIVE AmendDepth(_, _, _), PathOk(_, _)
+AmendDepth(a, x, path) == IF Len(path) = 1 THEN L([a.v EXCEPT ![path[1] + 1] = x])
+                          ELSE L([a.v EXCEPT ![path[1] + 1] = AmendDepth(a.v[path[1] + 1], x, Tail(path))])
+PathOk(a, path) == /\ IsList(a) /\ path[1] \in 0..(Len(a.v) - 1)
+                   /\ (Len(path) > 1 => PathOk(a.v[path[1] + 1], Tail(path)))
+
 Len0E(a) == (IsList(a) \/ IsStr(a)) /\ Len(a.v) = 0
 
 DomD(v, a, b) ==
@@ -239,6 +246,8 @@ DomD(v, a, b) ==
     [] v = ":=" -> IsList(a) /\ Len(a.v) >= 1 /\ IsList(b) /\ Len(b.v) >= 2 /\ AllInts(Tail(b.v)) /\
                    (\A k \in 2..Len(b.v) : b.v[k].v \in 0..(Len(a.v) - 1)) /\
                    (\A k \in 1..Len(a.v) : a.v[k].t = b.v[1].t) /\ ~IsList(b.v[1]) /\ ~IsStr(b.v[1])
+    [] v = ":-" -> IsList(a) /\ IsList(b) /\ Len(b.v) \in 2..4 /\ AllInts(Tail(b.v)) /\ ~IsList(b.v[1]) /\ ~IsDict(b.v[1])
+                   /\ PathOk(a, [k \in 1..(Len(b.v) - 1) |-> b.v[k + 1].v])
     [] OTHER -> FALSE
 
 Dyad(v, a, b) ==
@@ -261,5 +270,6 @@ Dyad(v, a, b) ==
     [] v = ":_" -> LET segs == CutAt(Elems(b), IntsOf(a), 0) IN L([k \in 1..Len(segs) |-> Like(b, segs[k])])
     [] v = ":^" -> Build(IntsOf(a), IF IsList(b) THEN b.v ELSE <<b>>, 0)
     [] v = ":=" -> L(Amend(a.v, b.v[1], [k \in 1..(Len(b.v) - 1) |-> b.v[k + 1].v]))
+    [] v = ":-" -> AmendDepth(a, b.v[1], [k \in 1..(Len(b.v) - 1) |-> b.v[k + 1].v])
     [] OTHER -> Err("unknown dyad")
 =============================================================================
